@@ -379,7 +379,10 @@ def run(tier, seed):
         pg = c["pg"][jo] if (op is not None and jo < len(c.get("pg", []))) else None
         flavour = "+".join(f for f in ("shared", "alloc", "imported") if c["cfg"][f]) or "plain"
         sig = {"engine": c["engine"]}
-        if op is not None and j < 1000000 and c["engine"] == "compiler" and op[0] in GUEST_OPS and pg == 65536:
+        # F12 (32-bit load of the length in compiled code): memory.size is 0 at 65536 pages for every flavour; guest ACCESSES
+        # fail only on a local unshared memory (shared and imported memories are bounds-checked with a 64-bit length)
+        if (op is not None and j < 1000000 and c["engine"] == "compiler" and pg == 65536 and
+                (op[0] == "gsize" or (op[0] in GUEST_OPS and not c["cfg"]["shared"] and c["view"][jo] == 0))):
             sig["kind"] = "compiler-guest-access-at-65536-pages"
         elif why is not None:
             sig["kind"] = "property-fails"
